@@ -34,6 +34,8 @@ CRASH_RCS = (-6, -11, -4, -7, 134, 139)   # SIGABRT (Rust's stack-overflow handl
 
 def sweep(binpath, args, timeout=900):
     rc, out, err = native.run(binpath, ['sweep'] + args, timeout=timeout)
+    if rc in CRASH_RCS and os.environ.get('SWEEP_PANIC_NOT_MINE') == '1':
+        return 'ERROR the real code killed the replayer process (rc=%d): that is C08\'s hit, this relational sweep could not complete' % rc
     if rc in CRASH_RCS:
         # the real code took the whole process down (unbounded recursion, abort): that is not 'returning normally'
         at = [l for l in err.split('\n') if l.startswith('AT ')]
